@@ -10,6 +10,7 @@ import (
 	"io"
 	"math/rand/v2"
 	"net/http"
+	"regexp"
 	"strings"
 	"time"
 
@@ -23,6 +24,9 @@ import (
 
 	"verif/harness/lib"
 )
+
+// blobNameRe matches a digest inside a step name (finding keys must not depend on the seed).
+var blobNameRe = regexp.MustCompile(`[0-9a-f]{64}(/[0-9]+)?`)
 
 type blob struct {
 	data []byte
@@ -249,9 +253,19 @@ func (fx *fixture) warmup() bool {
 	ctx, cancel := context.WithTimeout(context.Background(), 3*time.Minute)
 	defer cancel()
 	fail := func(what string, err error) bool {
-		if fx.child.Exited() {
-			fx.lastOp = &op{ep: "warmup", gen: "warmup." + what}
-			fx.livenessCheck("warm-up")
+		// A well-formed request of the warm-up that kills (or wedges) the server is a
+		// violation like any other; a dying process needs a moment to be seen as gone.
+		fx.child.WaitExit(2 * time.Second)
+		if fx.child.Exited() && strings.Contains(fx.child.LogTail(2000), "address already in use") {
+			// not a death: the server never came up, another process of the machine took one of
+			// its ports between the harness picking it and the server binding it
+			fx.portStolen = true
+			fx.r.Count("fixture." + fx.p.name + ".port-stolen")
+			return false
+		}
+		fx.lastOp = &op{ep: "warmup", gen: "warmup." + blobNameRe.ReplaceAllString(what, "<blob>"), desc: map[string]any{"step": what, "error": fmt.Sprint(err)}}
+		fx.journalWrite(fx.lastOp)
+		if !fx.livenessCheck("warm-up") {
 			return false
 		}
 		fx.r.Inconclusive(fmt.Sprintf("%s: warm-up step %q failed on the unfuzzed server: %v", fx.p.name, what, err))
